@@ -135,13 +135,14 @@ def merge(results):
 
 
 def write_replay(prop, violation):
-    os.makedirs(os.path.join(env.VERIF, "replays"), exist_ok=True)
+    rdir = os.environ.get("VERIF_REPLAY_DIR") or os.path.join(env.VERIF, "replays")
+    os.makedirs(rdir, exist_ok=True)
     body = {"property": prop, "sig": violation["sig"], "witness": violation["witness"],
             "message": violation["message"],
             "how_to_replay": "./check %s --replay <this file>" % prop}
     text = json.dumps(body, indent=1, sort_keys=True, default=repr)
     name = "%s-%s.json" % (prop, hashlib.blake2b(text.encode(), digest_size=6).hexdigest())
-    path = os.path.join(env.VERIF, "replays", name)
+    path = os.path.join(rdir, name)
     with open(path, "w") as f:
         f.write(text + "\n")
     return path
@@ -175,8 +176,9 @@ def write_evidence(prop, tier, seed, tot, wall, meta, exhaustive=True, error=Non
     ev = {"property_id": prop, "tier": tier, "seed": int(seed), "level": "model_checking", "coverage": cov,
           "assumptions": meta.get("assumptions", []), "wall_s": round(wall, 2),
           "violations": int(tot["n_violations"])}
-    os.makedirs(os.path.join(env.VERIF, "evidence"), exist_ok=True)
-    path = os.path.join(env.VERIF, "evidence", prop + ".json")
+    evdir = os.environ.get("VERIF_EVIDENCE_DIR") or os.path.join(env.VERIF, "evidence")
+    os.makedirs(evdir, exist_ok=True)
+    path = os.path.join(evdir, prop + ".json")
     tmp = path + ".tmp"
     with open(tmp, "w") as f:
         json.dump(ev, f, indent=1, sort_keys=True, default=repr)
